@@ -112,7 +112,7 @@ def handle (j : Json) : Except String Json := do
     let r := ana p Abs.init
     pure (Json.mkObj [("restores", Json.bool (restores p vs)), ("render", Json.str (render p)),
                       ("writes", J.ofList Json.str (writes p)), ("assigns", J.ofList Json.str (assigns p)),
-                      ("normal", absJ r.1), ("abrupt", absJ r.2)])
+                      ("normal", absJ r.n), ("raised", absJ r.e), ("returned", absJ r.r)])
   | _ => throw s!"C20: unknown op {op}"
 
 end PydlVerif.Driver.C20
